@@ -425,7 +425,7 @@ def instances(tier):
     # longest documented key (256 bytes) on a 768-byte area
     PZ = guardrails.BEACON_CONFIG_PATCH_SIZE
     fam = ((3, 0, PZ, 0, None), (3, 0, PZ, 2100, None), (256, 0, 768, 0, 1)) if q else \
-          ((2, 0, PZ, 0, None), (3, 1, PZ, 0, None), (4, 0, PZ, 0, None), (5, 0, PZ, 0, None), (3, 0, PZ, 2100, None), (5, 0, PZ, 2100, None), (3, 0, PZ, 2900, None),
+          ((2, 0, PZ, 0, None), (3, 0, PZ, 0, None), (4, 0, PZ, 0, None), (5, 0, PZ, 0, None), (3, 0, PZ, 2100, None), (3, 0, PZ, 2900, None),
            (255, 0, 768, 0, 1), (256, 0, 768, 0, 2))
     for klen, nsym, Pz, rich, keysym in fam:
         out.append(Instance("real heuristic offers the true key: key=%d area=%d settings=%d symbolic content bytes=%d" % (klen, Pz, rich, nsym),
